@@ -6,6 +6,10 @@ ALL = ["C%02d" % i for i in range(1, 20)]
 
 # id -> (technique, level text, level note, design ref)
 CLAIMED = {
+ "C15": ("rapid property-based testing: log records generated from a field map with kernel / dbus-daemon encoding vs. the field map itself (round trip through the encoder model)",
+         "Generated search: 1-4 records per file built from known field values (any key order, any subset of optional fields, values with spaces, '=', '#', ',', control bytes, UTF-8, hex-looking values, look-alike keys such as hostname/srcname, malformed records in front), encoded as the kernel's audit_log_untrustedstring or dbus-daemon would; logs.New must return, for every well-formed record, exactly those values and no others. 25k files per quick run.",
+         "Trusts the encoder model in c15_test.go (hex when a byte is < 0x21, > 0x7e or '\"'); profile/name/target values come from an alphabet that the documented generalisation leaves alone (generalisation is C16's subject); pid/peer_pid are not compared. One listed known finding is excluded by construction (hex value containing a double quote) and kept under a fixed witness.",
+         "DESIGN.md §2 C15"),
  "C03": ("rapid property-based testing: generated directive-bearing texts x 15 targets vs. an independent line model; exhaustive enumeration of the shipped uses x 15 targets",
          "Generated search: profile/sub-profile/abstraction/tunable texts from a segment model (unguarded lines, inline and paragraph directives, repeated identical directives, 1-3 filters from distributions, families, ABI, version and non-matching words) for one of the 15 (distribution, ABI, version) targets; the non-blank lines produced by directive.Run must equal those of an independent model written from the documentation, and no marker may survive. The 43 shipped uses are enumerated completely against all 15 targets with the same oracle.",
          "Trusts the line model in c03_test.go (family table from docs/development/directives.md); blank lines are not compared (the implementation legitimately leaves an empty line where a rule was). In-process the target globals are set directly; the CLI plumbing and the real family table are covered by the real-build stage.",
